@@ -109,7 +109,20 @@ def run_history(seed, k, res):
             ops.append("fit")
             # the flag combinations the solver itself uses (verbose only with diagnostics on, get_chg_J only with auto-detected restarts)
             fl = int(rng.integers(0, 4))
-            ok, ie, nj, lr, cn = M.interpolate_mini_models_svd(verbose=bool(fl & 1), get_chg_J=bool(fl & 2))
+            full_rank = False
+            if M.npt() < n + 1 and rng.random() < 0.5:
+                # growing phase: the solver fits with make_full_rank=True by default (singular values of J below a floor are raised;
+                # the raised components are orthogonal to the sampled directions, so the data must still be interpolated). The clause
+                # is evaluated only when no GENUINE singular value is below the floor (then the perturbation is deliberate): judged on
+                # the plain fit made first.
+                okp, _a, _b, _c, _d = M.interpolate_mini_models_svd()
+                if okp:
+                    sv = np.linalg.svd(M.model_jac, compute_uv=False)
+                    r_ = min(M.npt() - 1, n, m)
+                    if r_ >= 1 and sv[r_ - 1] >= max(1e-6, sv[0] / 1e8) * (1 + 1e-6):
+                        full_rank = True
+                        st["growing_fits_with_make_full_rank"] = st.get("growing_fits_with_make_full_rank", 0) + 1
+            ok, ie, nj, lr, cn = M.interpolate_mini_models_svd(verbose=bool(fl & 1), get_chg_J=bool(fl & 2), make_full_rank=full_rank)
             st["fit_flags|verbose=%d,get_chg_J=%d" % (fl & 1, (fl >> 1) & 1)] = st.get("fit_flags|verbose=%d,get_chg_J=%d" % (fl & 1, (fl >> 1) & 1), 0) + 1
             if not ok:
                 st["fit_reported_failure"] = st.get("fit_reported_failure", 0) + 1
